@@ -23,7 +23,21 @@ impl PanicRec {
     pub fn class(&self) -> String {
         let mut out = String::new();
         let mut last_digit = false;
-        for c in self.message.chars().take(120) {
+        let mut quoted = false;
+        for c in self.message.chars() {
+            if out.len() >= 120 {
+                break;
+            }
+            if c == '`' {
+                quoted = !quoted;
+                if quoted {
+                    out.push_str("`_`");
+                }
+                continue;
+            }
+            if quoted {
+                continue;
+            }
             if c.is_ascii_digit() {
                 if !last_digit {
                     out.push('N');
